@@ -24,6 +24,7 @@ type c14Op struct {
 	Template string `json:"template,omitempty"`
 	Vars     string `json:"vars,omitempty"`  // "", int, float, bad
 	DBRP     string `json:"dbrp,omitempty"`  // explicit dbrp in the request: "", db, db2
+	NoWait   bool   `json:"no_wait,omitempty"` // the next request is issued without waiting for the daemon to settle
 }
 
 type c14Scenario struct {
@@ -44,6 +45,7 @@ type c14Script struct {
 	Implicit string // database of a dbrp statement in the script
 	Th       string // declaration of var th: "", int-default, float-default, float-required
 	ThDef    string // the default's rendering
+	Fails    bool   // valid definition that cannot be started: it writes to an InfluxDB cluster that does not exist
 }
 
 var c14Scripts = []c14Script{{},
@@ -51,6 +53,7 @@ var c14Scripts = []c14Script{{},
 	{Text: "var th = 1\n\nstream\n    |from()\n        .measurement('m2')\n    |where(lambda: \"v\" > th)\n    |log()\n", Th: "int-default", ThDef: "1"},
 	{Text: "stream\n    |from()\n    |nope()\n", Invalid: true},
 	{Text: "dbrp \"idb\".\"rp\"\n\nstream\n    |from()\n        .measurement('m4')\n    |log()\n", Implicit: "idb"},
+	{Text: "stream\n    |from()\n        .measurement('m5')\n    |influxDBOut()\n        .cluster('unreachable')\n        .database('out')\n        .retentionPolicy('rp')\n", Fails: true},
 }
 var c14TScripts = []c14Script{{},
 	{Text: "var th = 1\n\nstream\n    |from()\n        .measurement('tm')\n    |where(lambda: \"v\" > th)\n    |log()\n", Th: "int-default", ThDef: "1"},
@@ -95,6 +98,8 @@ func c14Gen(c *Ctx) *c14Scenario {
 	}
 	// template-heavy histories are a swarm choice: they need a template, several tasks from it, then template updates
 	tmplHeavy := g.Chance(1, 2)
+	// bursts: requests issued back to back, while start-failure bookkeeping of earlier ones is still in flight
+	burst := g.Chance(1, 6)
 	for i := 0; i < n; i++ {
 		var op c14Op
 		k := g.Intn(12)
@@ -103,7 +108,7 @@ func c14Gen(c *Ctx) *c14Scenario {
 		}
 		switch k {
 		case 0, 1, 2:
-			op = c14Op{Kind: "createTask", ID: g.Pick(c14TaskIDs), Script: 1 + g.Intn(4), Status: []string{"enabled", "disabled", ""}[g.Intn(3)], DBRP: "db"}
+			op = c14Op{Kind: "createTask", ID: g.Pick(c14TaskIDs), Script: 1 + g.Intn(5), Status: []string{"enabled", "disabled", ""}[g.Intn(3)], DBRP: "db"}
 			if g.Chance(1, 4) || tmplHeavy && g.Chance(2, 3) {
 				op.Template, op.Script = g.Pick(c14TmplIDs), 0
 			}
@@ -117,7 +122,7 @@ func c14Gen(c *Ctx) *c14Scenario {
 			op = c14Op{Kind: "patchTask", ID: g.Pick(c14TaskIDs)}
 			switch g.Intn(8) {
 			case 0:
-				op.Script = 1 + g.Intn(4)
+				op.Script = 1 + g.Intn(5)
 			case 1:
 				op.Status = "enabled"
 			case 2:
@@ -131,7 +136,7 @@ func c14Gen(c *Ctx) *c14Scenario {
 			case 6:
 				op.Template = g.Pick(c14TmplIDs)
 			default:
-				op.Script, op.Status = 1+g.Intn(2), []string{"enabled", "disabled"}[g.Intn(2)]
+				op.Script, op.Status = []int{1, 2, 5}[g.Intn(3)], []string{"enabled", "disabled"}[g.Intn(2)]
 				if g.Bool() {
 					op.Vars = vars()
 				}
@@ -150,6 +155,9 @@ func c14Gen(c *Ctx) *c14Scenario {
 		default:
 			op = c14Op{Kind: "write"}
 		}
+		if burst && g.Chance(2, 3) {
+			op.NoWait = true
+		}
 		sc.Ops = append(sc.Ops, op)
 	}
 	return sc
@@ -163,6 +171,21 @@ type c14MTask struct {
 	Template string
 	Vars     string // "", int, float
 	DBRP     string // database of the task's single dbrp; "?" = not determined by the property
+	Running  string // outcome of the last start attempt since the task was last enabled: "" (none or failed), ok
+}
+
+// start models one start attempt: a definition that names an InfluxDB cluster that does not exist is accepted
+// (the pipeline is valid) but cannot be started.
+func (t *c14MTask) start() bool {
+	t.Running = "ok"
+	if c14ByText[t.Script].Fails {
+		t.Running = ""
+		if simrt.Active() {
+			simrt.Count("probe.start_attempt_failed")
+		}
+		return false
+	}
+	return true
 }
 
 type c14Model struct {
@@ -226,8 +249,13 @@ func (m *c14Model) apply(op c14Op) bool {
 			return false // neither or both
 		}
 		t.DBRP = impl + op.DBRP
+		started := true
+		if t.Enabled {
+			// the definition is saved before the start is attempted: a failed start answers with an error but the task exists
+			started = t.start()
+		}
 		m.Tasks[op.ID] = t
-		return true
+		return started
 	case "patchTask":
 		t, ok := m.Tasks[op.ID]
 		if !ok {
@@ -277,16 +305,27 @@ func (m *c14Model) apply(op c14Op) bool {
 		if !c14Valid(t.Script, t.Vars) {
 			return false
 		}
+		started := true
+		newID := op.ID
 		if op.NewID != "" && op.NewID != op.ID {
 			if _, exists := m.Tasks[op.NewID]; exists {
 				return false
 			}
 			delete(m.Tasks, op.ID)
-			m.Tasks[op.NewID] = t
-			return true
+			newID = op.NewID
+			if old.Enabled && t.Enabled {
+				started = t.start() // restarted under the new id
+			}
 		}
-		m.Tasks[op.ID] = t
-		return true
+		if started && old.Enabled != t.Enabled {
+			if t.Enabled {
+				started = t.start()
+			} else {
+				t.Running = ""
+			}
+		}
+		m.Tasks[newID] = t
+		return started
 	case "deleteTask":
 		delete(m.Tasks, op.ID)
 		return true
@@ -334,6 +373,18 @@ func (m *c14Model) apply(op c14Op) bool {
 		return true
 	}
 	return true
+}
+
+// restarted: after a restart every enabled task is started again.
+func (m *c14Model) restarted() {
+	for _, id := range simrt.Keys(m.Tasks) {
+		t := m.Tasks[id]
+		t.Running = ""
+		if t.Enabled {
+			t.start()
+		}
+		m.Tasks[id] = t
+	}
 }
 
 func c14Fmt(script string) string {
@@ -561,7 +612,7 @@ func c14Run(c *Ctx, sc *c14Scenario, cfg simrt.Config, path string, from int, mo
 			}
 			life.path = st.Path()
 			st.CrashAt = crashAt
-			d, err := harness.NewDaemon(harness.DaemonOpts{Store: st, WithTaskStore: true})
+			d, err := harness.NewDaemon(harness.DaemonOpts{Store: st, WithTaskStore: true, Influx: &harness.FakeInflux{}})
 			if err != nil {
 				life.verdict = Fail("restart/open", "the daemon cannot open on the stored catalogue: %v", err)
 				return nil, false
@@ -606,9 +657,11 @@ func c14Run(c *Ctx, sc *c14Scenario, cfg simrt.Config, path string, from int, mo
 				}
 			}
 			alt = nil
-			for id, t := range life.model.Tasks {
-				if exec[id] != t.Enabled {
-					life.verdict = Fail("executing/out-of-step", "%s task %s is enabled=%v (valid script) but executing=%v", when, id, t.Enabled, exec[id])
+			for _, id := range simrt.Keys(life.model.Tasks) {
+				t := life.model.Tasks[id]
+				if exec[id] != (t.Running == "ok") {
+					life.verdict = Fail("executing/out-of-step", "%s task %s is enabled=%v, its last start attempt %s, but the API says executing=%v", when, id, t.Enabled,
+						map[string]string{"": "failed or never happened", "ok": "succeeded"}[t.Running], exec[id])
 					return false
 				}
 			}
@@ -619,6 +672,10 @@ func c14Run(c *Ctx, sc *c14Scenario, cfg simrt.Config, path string, from int, mo
 			return
 		}
 		if from > 0 || alt != nil {
+			life.model.restarted()
+			if alt != nil {
+				alt.restarted()
+			}
 			if !verify(d, "after the restart") {
 				return
 			}
@@ -637,6 +694,7 @@ func c14Run(c *Ctx, sc *c14Scenario, cfg simrt.Config, path string, from int, mo
 					return
 				}
 				life.done = i + 1
+				life.model.restarted()
 				if !verify(d, fmt.Sprintf("after the clean restart (op #%d)", i)) {
 					return
 				}
@@ -679,6 +737,10 @@ func c14Run(c *Ctx, sc *c14Scenario, cfg simrt.Config, path string, from int, mo
 				return
 			}
 			life.done = i + 1
+			if op.NoWait && i+1 < len(sc.Ops) && !injected {
+				simrt.Count("probe.request_without_settling")
+				continue
+			}
 			if !verify(d, fmt.Sprintf("after op #%d %+v (-> %d)", i, op, code)) {
 				if injected {
 					life.verdict.Class = "atomicity/" + life.verdict.Class
@@ -824,10 +886,10 @@ func init() {
 	Register(&Prop{
 		ID:  "C14",
 		Run: runC14,
-		Rule: "case = a history of 3-12/25 API requests (create task from a script or a template, patch script/status/id, delete, create and patch templates; valid and deliberately rejected ones) over 4 task ids and 2 template ids, interleaved with clean restarts and data writes, issued against the real HTTP handler; after every acknowledged request and every restart the catalogue read through GET /tasks, /tasks/<id> and /templates is compared with a reference catalogue, and executing with enabled; the history is then re-executed with an injected failure at up to 8 underlying storage writes, and with a crash at up to 8 storage transaction boundaries followed by a restart on a byte copy of the Bolt file and the rest of the history; " +
+		Rule: "case = a history of 3-12/25 API requests (create task from a script or a template, patch script/status/id/template/vars/dbrps, delete, create and patch templates; valid and deliberately rejected ones, template updates that fail on one of their tasks, definitions whose start fails, some requests issued back to back) over 4 task ids and 2 template ids, interleaved with clean restarts and data writes, issued against the real HTTP handler; after every acknowledged request and every restart the catalogue read through GET /tasks, /tasks/<id> and /templates is compared with a reference catalogue, and executing with enabled; the history is then re-executed with an injected failure at up to 8 underlying storage writes, and with a crash at up to 8 storage transaction boundaries followed by a restart on a byte copy of the Bolt file and the rest of the history; " +
 			"non-trivial = every case; distinct = distinct (scenario, interleaving signatures) tuples",
 		Real: []string{"services/task_store Service (Open, HTTP handlers, DAOs, updateAllAssociatedTasks, startTask watcher)", "services/storage IndexedStore + Bolt adapter + real bbolt file", "services/httpd Handler routing", "TaskMaster (StartTask/StopTask/DeleteTask), pipeline construction, tick parser/evaluator/formatter"},
 		Stub: []string{"harness StorageService wrapper: crash = abandon the world at a transaction boundary + byte copy; failing Put/Delete/Commit", "server.Server wiring replaced by the harness (storage, alert, task master, task store opened in server order)"},
-		Assumptions: []string{"a request in flight at a crash may or may not have applied: both catalogues are admissible", "scripts are compared in the formatted form the API returns (tick.Format of the model's script)", "vars, batch tasks, template deletion and runtime-failing tasks are not part of the generated histories"},
+		Assumptions: []string{"a request in flight at a crash may or may not have applied: both catalogues are admissible", "scripts are compared in the formatted form the API returns (tick.Format of the model's script)", "the vocabulary is 5 task scripts and 6 template scripts whose declared vars/dbrps/startability are written down by hand in the model", "batch tasks, template id changes, template deletion and tasks that die while running are not part of the generated histories"},
 	})
 }
